@@ -13,6 +13,7 @@ import (
 	"errors"
 	"fmt"
 	"math"
+	"math/rand"
 	"os"
 	"runtime"
 	"strings"
@@ -315,8 +316,11 @@ func execSchedC14(c *ctx, line string, f []string) string {
 			}
 		}
 	}
-	rotExited := 1
+	rotExited := "x"
+	_, openH, multiH := vfs.account()
+	metaCloses := meta.closes
 	if closed && !deadlock {
+		rotExited = "1"
 		// after Close returned: every method returns ErrClosed, second Close is a no-op
 		for _, op := range []string{"F", "L", "G1", "S0", "D1", "K", "k"} {
 			if out := runOp(o, nil, op); out != "closed" {
@@ -336,7 +340,7 @@ func execSchedC14(c *ctx, line string, f []string) string {
 			time.Sleep(100 * time.Microsecond)
 		}
 		if !ok {
-			rotExited = 0
+			rotExited = "0"
 			c.witness("C14", "rotator-alive", "rotation goroutine still running after Close returned", line)
 		}
 		for k := 0; k < 100 && runtime.NumGoroutine() > baseG; k++ {
@@ -368,9 +372,8 @@ func execSchedC14(c *ctx, line string, f []string) string {
 			env2.w.Close()
 		}
 		meta.closes = closesBefore
-	} else if !closed {
+	} else {
 		env.w.Close()
-		rotExited = -1
 	}
 	var sb strings.Builder
 	for i := range progs {
@@ -382,12 +385,11 @@ func execSchedC14(c *ctx, line string, f []string) string {
 			sb.WriteString("*")
 		}
 	}
-	_, open, multi := vfs.account()
 	dl := 0
 	if deadlock {
 		dl = 1
 	}
-	fmt.Fprintf(&sb, ";dl=%d rot=%d mc=%d open=%d multi=%d", dl, rotExited, meta.closes, open, multi)
+	fmt.Fprintf(&sb, ";dl=%d rot=%s mc=%x open=%x multi=%x", dl, rotExited, metaCloses, openH, multiH)
 	if os.Getenv("WH_TRACE") != "" {
 		fmt.Fprintf(os.Stderr, "%s\n  %s\n", line, strings.Join(s.trace, " "))
 	}
@@ -411,4 +413,83 @@ func execSched(c *ctx, line string) string {
 }
 
 func genSched(c *ctx, emit func(string)) {
+	genSchedC14(c, emit)
+}
+
+// genSchedC14: every API method x every window of the call x every stage of
+// Close, on three initial logs, then random programs and schedules (pending
+// rotation, truncation finalisers, second Close, several readers).
+func genSchedC14(c *ctx, emit func(string)) {
+	r := rand.New(rand.NewSource(c.seed))
+	n := 0
+	out := func(setup, threads, sch string) {
+		emit("sched c14 " + setup + " " + threads + " " + sch)
+		n++
+	}
+	ops := []string{"F", "L", "G1", "G2", "G9", "S0", "S1", "D1", "D2", "K", "k", "X"}
+	setups := []string{"S0.S0", "S1.S0", "S1"}
+	rep := func(ch string, k int) string { return strings.Repeat(ch, k) }
+	// systematic part: A takes a steps, Close takes cl steps, A takes b more, Close finishes, A finishes
+	for _, su := range setups {
+		for _, op := range ops {
+			for a := 0; a <= 6; a++ {
+				for cl := 1; cl <= 5; cl++ {
+					for _, b := range []int{0, 1, 2, 9} {
+						if c.tier == "quick" && (a+cl+b+len(su)+len(op))%3 != int(c.seed%3) {
+							continue
+						}
+						out(su, op+",X", rep("0", a)+rep("1", cl)+rep("0", b)+rep("1", 6))
+					}
+				}
+			}
+		}
+	}
+	// a writer waiting for a pending rotation while Close runs (every stage of the rotator and of Close)
+	for _, w := range []string{"S1.S0", "S1.D1", "S1.S1.S0", "S0.S1.D1"} {
+		for a := 5; a <= 9; a++ {
+			for rt := 0; rt <= 5; rt++ {
+				for cl := 1; cl <= 5; cl++ {
+					if c.tier == "quick" && (a+rt+cl+len(w))%2 != int(c.seed%2) {
+						continue
+					}
+					out("S0", w+",X", rep("0", a)+rep("2", rt)+rep("1", cl)+rep("2", 2)+rep("0", 3)+rep("1", 6))
+				}
+			}
+		}
+	}
+	// random programs and schedules
+	wops := []string{"S0", "S1", "D1", "D2", "D3"}
+	rops := []string{"F", "L", "G1", "G2", "G3", "G5", "K", "k"}
+	for n < c.n {
+		var th []string
+		var w []string
+		for i := 1 + r.Intn(3); i > 0; i-- {
+			w = append(w, wops[r.Intn(len(wops))])
+		}
+		th = append(th, strings.Join(w, "."))
+		for i := r.Intn(3); i > 0; i-- {
+			var p []string
+			for j := 1 + r.Intn(2); j > 0; j-- {
+				p = append(p, rops[r.Intn(len(rops))])
+			}
+			th = append(th, strings.Join(p, "."))
+		}
+		th = append(th, "X")
+		if r.Intn(4) == 0 {
+			th = append(th, "X")
+		}
+		if r.Intn(5) == 0 {
+			th = append(th, "F.X.L")
+		}
+		nt := len(th) + 1
+		var sb strings.Builder
+		for i := 8 + r.Intn(40); i > 0; i-- {
+			t := r.Intn(nt)
+			// bias: runs of the same thread
+			for k := 1 + r.Intn(3); k > 0; k-- {
+				fmt.Fprintf(&sb, "%x", t)
+			}
+		}
+		out(setups[r.Intn(len(setups))], strings.Join(th, ","), sb.String())
+	}
 }
